@@ -107,6 +107,8 @@ func buildC12On(tier string, proto string) sim.Scenario {
 			{"RTP/AVP/TCP", "bad"},
 			{"FOO/BAR;x=1", "bad"},
 			{"RTP/AVP/TCP;unicast;interleaved=a-b", "bad"},
+			{"RTP/AVP/TCP;unicast;interleaved=a-b;client_port=5000-5001", "bad"}, // a malformed parameter followed by a well-formed one
+			{"RTP/AVP;unicast;client_port=x-y;port=6000-6001", "bad"},
 		}
 		var script []c12Req
 		// bias: half of the scripts start with a sensible prefix so that deep states are reached
@@ -118,7 +120,7 @@ func buildC12On(tier string, proto string) sim.Scenario {
 			if proto == "" && tp.Bool() {
 				script = append(script, c12Req{method: "DESCRIBE", path: "/nope"})
 			} else {
-				script = append(script, c12Req{method: "SETUP", path: c12Live, track: "streamid=0", trans: transports[4+tp.Choose(3)].s, tkind: "bad"})
+				script = append(script, c12Req{method: "SETUP", path: c12Live, track: "streamid=0", trans: transports[4+tp.Choose(5)].s, tkind: "bad"})
 			}
 			script = append(script, c12Req{method: "SETUP", path: c12Live, track: "streamid=0", trans: fmt.Sprintf(transports[0].s, 0, 1), tkind: "tcp"}, c12Req{method: "PLAY", path: c12Live})
 		case 5:
